@@ -196,7 +196,7 @@ def verify_function(c, registry, timeout_ms=10000, max_paths=None):
                     result = I.call_function(fi, list(bound.values()), loopspecs=c.loops)
                     post = bound
                 exits["normal"] += 1
-                env = dict(post, old=old, result=result, ctx=ctx, **ghosts)
+                env = dict(post, old=old, result=result, ctx=ctx, trace=I.trace, **ghosts)
                 for cname, fn in c.ensures:
                     ctx.oblige("ensures:%s" % cname, c.apply(fn, env))
                 for cls, fn in c.raises_iff.items():
@@ -252,8 +252,19 @@ def run_fragment(c, I, fi, node, bound):
     fr = Frame(fi, dict(bound), real_module(fi.modname), loopspecs=c.loops)
     if c.fragment["mode"] == "expr":
         return I.eval(node, fr), bound
-    I.exec_block(node, fr)
-    return None, fr.env
+    from .symexec import _Return, _Break, _Continue
+    how = "end"
+    try:
+        I.exec_block(node, fr)
+    except _Return as r:
+        how = "return"
+        fr.env["__return__"] = r.value
+    except _Break:
+        how = "break"
+    except _Continue:
+        how = "continue"
+    fr.env["__exit__"] = how
+    return (fr.yields if fi.is_generator else None), fr.env
 
 
 def _entry_view(oldv, cur):
@@ -396,7 +407,16 @@ def run_lemma(lem, registry, timeout_ms=10000):
 
 # ---------------------------------------------------------------------------
 # native execution: cross-check and replay
+class WithTrace:
+    """Return value of a contract's `native` runner that also recorded calls."""
+
+    def __init__(self, result, trace):
+        self.result, self.trace = result, trace
+
+
 class NativeOutcome:
+    trace = None
+
     def __init__(self):
         self.args = None
         self.old = None
@@ -413,6 +433,9 @@ def native_run(c, conc):
     try:
         if c.native is not None:
             o.result = c.native(native)
+            if isinstance(o.result, WithTrace):
+                o.trace = o.result.trace
+                o.result = o.result.result
         elif c.fragment is not None:
             import ast as _ast
             fi = get_function(c.modname, c.qualname)
@@ -465,6 +488,8 @@ def concrete_check(c, conc):
                 bad.append(("raises-only-if:%s" % allowed[0].__name__, "clause not evaluable: %s" % e))
         return bad
     env = dict(o.args, old=o.old, result=o.result, ctx=None)
+    if o.trace is not None:
+        env["trace"] = o.trace
     env.update({k: v for k, v in conc.items() if k in c.ghosts})
     for cname, fn in c.ensures:
         try:
@@ -496,7 +521,7 @@ def crosscheck(c, n, seed):
     """CPython cross-check: real function vs contract on sampled inputs."""
     rng = random.Random(seed ^ hash(c.key) & 0xFFFFFF)
     out = dict(key=c.key, evaluations=0, skipped=0, violations=[], error=None)
-    if c.abstract:
+    if c.abstract or getattr(c, "skip_cross", False):
         return out
     tries = 0
     while out["evaluations"] < n and tries < n * 20:
